@@ -454,12 +454,14 @@ impl State {
         ))
     }
 
+    // When appending, the newest file of the latest timestamp can be a ".restart-<number>" file.
     // When starting without append with a timestamp-named output file, a file with the same
     // timestamp can exist already (restart within the same second): don't truncate it,
     // but use the next free ".restart-<number>" infix, as a rotation does
     fn collision_free_start_infix(&self, infix: String) -> String {
         if self.config.append {
-            infix
+            // continue with the newest file of this timestamp
+            self.config.file_spec.latest_restart_infix(&infix)
         } else {
             self.config
                 .file_spec
